@@ -58,6 +58,16 @@ def verify_function(rel, qual, contract, hooks=None, registry=None, module_env=N
             return rep
     for ob in obs:
         S.discharge(ob, timeout_ms=timeout_ms)
+        if ob.verdict == 'refuted' and hasattr(eng, 'refine'):
+            # a `sat` over a finite set of instances of quantified facts is not yet a counter-model: refine against the model
+            t1 = time.time()
+            try:
+                eng.refine(ob, S.discharge)
+            except (z3.Z3Exception, E.Unsupported, KeyError, AttributeError, TypeError) as e:
+                ob.verdict, ob.reason = 'unknown', 'refinement failed: %s: %s' % (type(e).__name__, e)
+            ob.seconds += time.time() - t1
+            if ob.verdict == 'refuted' and S.havoc_symbols(ob):
+                ob.verdict, ob.reason = 'unknown', 'counter-model goes through the result of an unmodelled call: inconclusive'
     rep.obligations = obs
     rep.notes = eng.notes
     # vacuity: every probe point (entry, loop bodies, returns) must be reachable under the assumptions
